@@ -13,12 +13,10 @@ what the real decoders yield for a chunk under the current blob view, and every 
 reader level (VerifiableReader / reader, package fs/reader):
   r.prefetch <c> <g|b|f>                        -> ok | err             readAndCache of one chunk
   r.cache <c:st,...|-> cached=<c,...|->         -> ok | err [implausible:<c>]   Cache(); `cached` = observed
-  r.clone <c:st:k,...|-> cached=<c,...|->       -> ok | err [implausible:<c>]   Cache(WithReader(sr)): the
-                                                   walk goes over metadata.Reader.Clone(sr); k = which digest
-                                                   the clone hands over for the chunk: o = the one of the TOC
-                                                   parsed at open time, m = another one that matches the
-                                                   served bytes, x = another one that does not, n = none
-  r.clone.err                                   -> err                   Clone(sr) itself failed
+  r.clone <c:st,...|-> cached=<c,...|->         -> ok | err [implausible:<c>]   Cache(WithReader(sr)) over a
+                                                   clone whose TOC digest equals the layer's
+  r.clone.err                                   -> err                   Clone(sr) failed, or Cache refused the
+                                                   clone because its TOC digest differs (a094525)
   r.race <good|wrong> <c:st,...|-> cached=<..>  -> verify=<r> cache=<r> [implausible:<c>]
                                                    Cache() racing with VerifyTOC; linearisation rebuilt
                                                    from the observed cache contents
@@ -76,21 +74,6 @@ def parseItem? (s : String) : Option (Nat × Option Nat) :=
     let c ← parseNat? c
     let r ← parseReply? c st
     some (c, r)
-  | _ => none
-
-/-- item of a clone walk: chunk, served bytes, digest handed over by the clone. -/
-def parseCloneItem? (t : Toc Nat) (s : String) : Option (Nat × Option Nat × Option Nat) :=
-  match s.splitOn ":" with
-  | [c, st, k] => do
-    let c ← parseNat? c
-    let r ← parseReply? c st
-    let dg ← match k with
-      | "o" => some (t.dig c)
-      | "m" => some (some 0)
-      | "x" => some (some 1)
-      | "n" => some none
-      | _ => none
-    some (c, r, dg)
   | _ => none
 
 def parseStep? (s : String) : Option (Step Nat) :=
@@ -179,16 +162,11 @@ def step (d : DSt) : List String → DSt × String
       | some r => setS d (prefetch id d.s c r) okErr
       | none => (d, "bad-op")
     | none => (d, "bad-op")
-  | ["r.cache", items, cached] | ["l.cache", items, cached] =>
+  | ["r.cache", items, cached] | ["l.cache", items, cached]
+  | ["r.clone", items, cached] | ["l.clone", items, cached] =>
     match parseList? items parseItem?, (stripPrefix? "cached=" cached).bind (parseList? · parseNat?) with
     | some items, some cached =>
       let (s', anyErr, skipped, bad) := cacheItems d.s items cached
-      ({ d with s := s' }, (if anyErr then "err" else "ok") ++ plaus anyErr skipped bad)
-    | _, _ => (d, "bad-op")
-  | ["r.clone", items, cached] | ["l.clone", items, cached] =>
-    match parseList? items (parseCloneItem? d.s.toc), (stripPrefix? "cached=" cached).bind (parseList? · parseNat?) with
-    | some items, some cached =>
-      let (s', anyErr, skipped, bad) := cacheItemsWith d.s items cached
       ({ d with s := s' }, (if anyErr then "err" else "ok") ++ plaus anyErr skipped bad)
     | _, _ => (d, "bad-op")
   | ["r.clone.err"] | ["l.clone.err"] => (d, "err")
